@@ -367,6 +367,11 @@ def history(rng, version, length, profile):
             pos = rng.randrange(4, len(st) + 1)
             st[pos:pos] = [["fw", rng.choice([n, m, [n, m], 9]), ft, fv, "FILE:" + rng.choice(["eof-only", "address-only", "blank", "empty", "missing"])],
                            ["in", f"{rng.choice([n, m])};1;1;0;2;1"], ["in", f"{m};255;4;0;0;{cfgp}"], ["in", f"{n};255;4;0;2;{blk(0)}"]]
+        if rng.random() < 0.4:
+            # the update is scheduled again after the firmware was offered and before any block was fetched: the session
+            # starts over - a block request is only served after a new config request
+            st += [["fw", n, ft, fv, None], ["in", f"{n};255;4;0;0;{cfgp}"], ["fw", rng.choice([n, [n]]), ft, fv, rng.choice([None, img])],
+                   ["in", f"{n};255;4;0;2;{blk(2 % nblocks)}"], ["in", f"{n};255;4;0;0;{cfgp}"], ["in", f"{n};255;4;0;2;{blk(2 % nblocks)}"]]
         if rng.random() < 0.3:
             # the controller updates from a hex FILE; later the file at that path is replaced by garbage of the same size and
             # modification time and another update is requested from it (for another node / version): nothing may change
